@@ -207,6 +207,12 @@ def jobs(tier):
                 J.append(Job(f'Deconvolution2D.shipped:PSF={PSF}:BC={BC}:PSF_size={ps}:dim=4', lambda c: shipped(c, 'Deconvolution2D'), 'Pbox',
                              TPF + ['cuqi.testproblem._testproblem:Deconvolution2D.__init__', 'cuqi.testproblem._testproblem:_MoffatPSF', 'cuqi.testproblem._testproblem:_DefocusPSF'],
                              pre=_mk('Deconvolution2D', dim=4, PSF=PSF, PSF_size=ps, PSF_param=1.2, BC=BC), timeout=900))
+    # image smaller than the (default, 21 x 21) point-spread function: the documented PSF size is what the model uses, whatever the image size
+    for PSF in ('Gauss', 'Moffat', 'Defocus'):
+        for BC in ('periodic', 'zero'):
+            for dim in ((6,) if q else (4, 6, 10)):
+                J.append(Job(f'Deconvolution2D.shipped:PSF={PSF}:BC={BC}:PSF_size=default:dim={dim}', lambda c: shipped(c, 'Deconvolution2D'), 'B',
+                             TPF + ['cuqi.testproblem._testproblem:Deconvolution2D.__init__'], pre=_mk('Deconvolution2D', dim=dim, PSF=PSF, BC=BC), nnum=3))
     for BC in ('periodic', 'zero', 'Reflect', 'Mirror', 'Nearest') if not q else ('periodic', 'zero'):
         J.append(Job(f'Deconvolution1D.shipped:BC={BC}:dim=6', lambda c: shipped(c, 'Deconvolution1D'), 'Pbox',
                      ['cuqi.testproblem._testproblem:Deconvolution1D.__init__', 'cuqi.testproblem._testproblem:_getConvolutionOperator'],
